@@ -198,6 +198,60 @@ impl C18 {
                 }
             }
         }
+        // The read that carries the greeting's line feed may carry more bytes (a proxy that coalesces, a test
+        // double that answers eagerly). The verdict on the FIRST LINE must not depend on it. What becomes of the
+        // extra bytes is not judged here (the library may drop or keep them).
+        if g.ends_with(b"\n") && matches!(reference, RefGreeting::Ok(_) | RefGreeting::Invalid) && g.iter().filter(|&&b| b == b'\n').count() == 1 {
+            let tails: [&[u8]; 6] = [b"OK\n", b"changed: player\nOK\n", b"O", b"x", b"\n", b"ACK [5@0] {} unknown\n"];
+            let tail = tails[(i % tails.len() as u64) as usize];
+            let mut stream = g.clone();
+            stream.extend_from_slice(tail);
+            let mut tsegs = vec![Seg::Whole, Seg::Cuts(vec![glen + 1.min(tail.len() - 1)])];
+            if glen >= 2 {
+                tsegs.push(Seg::Cuts(vec![glen - 1]));
+                tsegs.push(Seg::Cuts(vec![r.range(1, glen - 1)]));
+            }
+            for seg in tsegs.iter() {
+                let seg = match seg {
+                    Seg::Cuts(c) if c.iter().any(|&x| x == 0 || x >= stream.len()) => Seg::Whole,
+                    s => s.clone(),
+                };
+                for flavour in [Flavour::Sync, Flavour::Async] {
+                    let spec = RunSpec { greeting: b"", body: &stream, seg: &seg, end: StreamEnd::Eof, flavour, pending_p: 0, pending_seed: 0, max_responses: 4, keep_alive: false };
+                    let out = run(&spec);
+                    acc.inc("evaluations");
+                    acc.inc("greetings_followed_by_more_bytes_in_the_same_read");
+                    let connect_err = match out.items.first() {
+                        Some(Item::ConnectErr(e)) => Some((**e).clone()),
+                        _ => None,
+                    };
+                    let panicked = out.items.iter().any(|x| matches!(x, Item::Panic(_)));
+                    let ok = !panicked
+                        && match &reference {
+                            RefGreeting::Ok(v) => connect_err.is_none() && out.version.as_deref() == Some(v.as_str()),
+                            _ => connect_err == Some(Item::ErrInvalid),
+                        };
+                    if !ok {
+                        acc.violation(
+                            i,
+                            None,
+                            format!(
+                                "greeting {:?} followed by {:?} in the same read ({} connection, {}): the first line is {} but connect gave version {:?}, outcome {}",
+                                String::from_utf8_lossy(&g[..g.len().min(60)]),
+                                String::from_utf8_lossy(tail),
+                                flavour.name(),
+                                seg.describe(),
+                                if matches!(reference, RefGreeting::Ok(_)) { "a valid greeting" } else { "not a greeting" },
+                                out.version.as_ref().map(|v| v.chars().take(40).collect::<String>()),
+                                J::Arr(out.items.iter().take(3).map(|x| x.to_json()).collect()).render_compact()
+                            ),
+                            J::obj().set("greeting_hex", J::hex(&g)).set("tail", J::bytes(tail)).set("segmentation", seg.describe()),
+                        );
+                        return;
+                    }
+                }
+            }
+        }
         if acc.want_sample() && i % 7 == 4 {
             acc.sample(i, J::obj().set("greeting", J::bytes(&g[..g.len().min(80)])).set("reference", format!("{:?}", reference).chars().take(80).collect::<String>()).set("segmentations", segs.len()));
         }
@@ -369,7 +423,7 @@ impl Property for C18 {
     fn meta(&self, _cfg: &Cfg, _acc: &Acc) -> Meta {
         Meta {
             level: "exploration",
-            rule: "greetings: valid versions of any shape (digits, letters, blanks, CR, NUL, non-ASCII, nested 'OK MPD', 4-9 KiB), wrong prefixes differing at each position, empty version, invalid UTF-8, streams ending before the line end, random bytes; each under whole, byte-at-a-time, EVERY 2-way split (greetings <=64 bytes; sampled + buffer-edge points otherwise) and random k-way splits on the blocking and async connection, compared with the greeting reference (valid => version verbatim and the connection usable; complete malformed line => InvalidMessage; no line end => UnexpectedEof); the same through Client::connect / connect_with_password / connect_with_password_opt in the session engine (nothing may be written to a peer whose greeting was not accepted); password sessions: verdicts OK, ACK 3/4/5/50, ACK after printed output, ACK after a list_OK frame, close, garbage, reply cut inside, with delayed/chopped replies, wire latency, 4-byte writes, passwords with blanks/tabs/non-ASCII/quotes, the empty password and a single blank (through both constructors), a caller and a notification waiting: first line must be `password <arg>` tokenising to the password, idle only after the OK was completely delivered (C05 oracle), nothing further written after a rejection, result kinds IncorrectPassword / protocol errors; non-trivial = greeting split inside the line or password session; distinct by (greeting, segmentation, flavour) / (verdict, password, timing)".into(),
+            rule: "greetings: valid versions of any shape (digits, letters, blanks, CR, NUL, non-ASCII, nested 'OK MPD', 4-9 KiB), wrong prefixes differing at each position, empty version, invalid UTF-8, streams ending before the line end, random bytes; each under whole, byte-at-a-time, EVERY 2-way split (greetings <=64 bytes; sampled + buffer-edge points otherwise) and random k-way splits on the blocking and async connection, compared with the greeting reference; greetings followed by more bytes inside the same read (OK, an idle reply, a lone byte, an ACK): the verdict on the first line must be the same (valid => version verbatim and the connection usable; complete malformed line => InvalidMessage; no line end => UnexpectedEof); the same through Client::connect / connect_with_password / connect_with_password_opt in the session engine (nothing may be written to a peer whose greeting was not accepted); password sessions: verdicts OK, ACK 3/4/5/50, ACK after printed output, ACK after a list_OK frame, close, garbage, reply cut inside, with delayed/chopped replies, wire latency, 4-byte writes, passwords with blanks/tabs/non-ASCII/quotes, the empty password and a single blank (through both constructors), a caller and a notification waiting: first line must be `password <arg>` tokenising to the password, idle only after the OK was completely delivered (C05 oracle), nothing further written after a rejection, result kinds IncorrectPassword / protocol errors; non-trivial = greeting split inside the line or password session; distinct by (greeting, segmentation, flavour) / (verdict, password, timing)".into(),
             nontrivial_set: "nontrivial",
             assumptions: vec!["greeting grammar from the protocol document: `OK MPD ` + >=1 non-LF bytes that are valid UTF-8 + LF".into(), "a stream that ends without LF after bytes that can no longer become a greeting may be reported as InvalidMessage or UnexpectedEof".into()],
             exhaustive: None,
@@ -378,6 +432,7 @@ impl Property for C18 {
                 ("greetings_invalid".into(), 50),
                 ("greetings_cut_before_line_end".into(), 10),
                 ("greetings_all_2way_splits".into(), 100),
+                ("greetings_followed_by_more_bytes_in_the_same_read".into(), 200),
                 ("client_connects".into(), 100),
                 ("password_sessions".into(), 200),
                 ("rejections_nothing_further_written".into(), 50),
